@@ -771,3 +771,106 @@ def difference_one_sided_timezone(oi: int, later: bool) -> bool:
     r = L(T_TZ['one_sided'].evaluate(XPathContext(item=1, variables={'a': a, 'b': b})))
     want = -_OS_MIN[off] * 60 - (3600 if later else 0)       # a as instant minus b taken as UTC
     return len(r) == 5 and r[0].seconds == want and r[1].seconds == -want and r[2] is True and r[3] is (want < 0) and r[4] is (want > 0)
+
+
+# --- added after the round-4 baseline reports: component extraction, commuted additions, 24:00:00 at the end of far years --------------------
+
+T_CMP = parse_all({'secs': '(seconds-from-dateTime($d), seconds-from-time($t), string(seconds-from-dateTime($d)))',
+                   'comm_dt': '($p + $d eq $d + $p, $q + $d eq $d + $q, $p + $x eq $x + $p, $q + $x eq $x + $q, $p + $t eq $t + $p)',
+                   'h24': 'string(xs:dateTime($s))'})
+_MICROS = (0, 1, 50, 5000, 40000, 500000, 999999)
+
+
+@ob(budget=200, bound='xs:dateTime / xs:time with second 0..59 and microseconds from {0, 1, 50, 5000, 40000, 500000, 999999} (both chosen by the '
+                      'solver, values concrete on each path): seconds-from-dateTime = seconds-from-time = second + microseconds / 10^6 as xs:decimal',
+    funcs=['elementpath/xpath2/_xpath2_functions.py:seconds-from-dateTime/seconds-from-time'])
+def seconds_component_fraction(sec: int, ui: int) -> bool:
+    """
+    pre: 0 <= sec <= 59 and 0 <= ui <= 6
+    post: _
+    """
+    from decimal import Decimal
+    s = [k for k in range(60) if k == sec][0]
+    us = _MICROS[[k for k in range(7) if k == ui][0]]
+    d = DateTime(2001, 2, 3, 4, 5, s, us)
+    t = Time(4, 5, s, us)
+    r = L(T_CMP['secs'].evaluate(XPathContext(item=1, variables={'d': d, 't': t})))
+    want = Decimal(s) + Decimal(us) / 1000000
+    return len(r) == 3 and r[0] == want and r[1] == want and Decimal(r[2]) == want
+
+
+_TZY = '(timezone-from-date(xs:date($x)), timezone-from-dateTime(xs:dateTime($y)), year-from-date(xs:date($x)), year-from-dateTime(xs:dateTime($y)), ' \
+       'string(xs:date($x)), string(xs:dateTime($y)), string(xs:gYear($g)), string(xs:gYearMonth($m)))'
+from elementpath.xpath31 import XPath31Parser as _P31  # noqa: E402
+T_TZY = {'1.0': _P31(xsd_version='1.0').parse(_TZY), '1.1': _P31(xsd_version='1.1').parse(_TZY)}
+_LEX_YEARS = ('-12000', '-10000', '-9999', '-2000', '-0002', '-0001', '0000', '0001', '9999', '10000', '12000', '2000000')
+_LEX_TZ = ('-14:00', '-05:00', '-01:00', 'Z', '+01:00', '+05:30', '+14:00')
+
+
+@ob(budget=240, bound='xs:date / xs:dateTime / xs:gYear / xs:gYearMonth written with a lexical year from {-12000, -10000, -9999, -2000, -0002, -0001, 0000, 0001, '
+                      '9999, 10000, 12000, 2000000} and a timezone from 7 designators, under XSD 1.0 and XSD 1.1 (all chosen by the solver, text concrete on '
+                      'each path): timezone-from-date / -dateTime return the offset, year-from-* the year as written, string() the text as written; year '
+                      '0000 is an error under XSD 1.0 only',
+    funcs=['elementpath/xpath2/_xpath2_functions.py:timezone-from-date/timezone-from-dateTime/year-from-*', D + ':AbstractDateTime.iso_year', D + ':AbstractDateTime.fromstring'])
+def timezone_and_year_of_far_years(yi: int, oi: int, v11: bool) -> bool:
+    """
+    pre: 0 <= yi <= 11 and 0 <= oi <= 6
+    post: _
+    """
+    ys = _LEX_YEARS[[k for k in range(12) if k == yi][0]]
+    k = [k for k in range(7) if k == oi][0]
+    tzs, off = _LEX_TZ[k], TZ_OFFS[k]
+    x, y, g, m = ys + '-06-15' + tzs, ys + '-06-15T01:02:03' + tzs, ys + tzs, ys + '-06' + tzs
+    try:
+        r = L(T_TZY['1.1' if v11 else '1.0'].evaluate(XPathContext(item=1, variables={'x': x, 'y': y, 'g': g, 'm': m})))
+    except ElementPathError as e:
+        return ys == '0000' and not v11 and err_code(e) == 'FORG0001'
+    return len(r) == 8 and r[0].seconds == off * 60 and r[1].seconds == off * 60 and r[2] == int(ys) and r[3] == int(ys) and r[4:] == [x, y, g, m] \
+        and not (ys == '0000' and not v11)
+
+
+@ob(budget=200, bound='dayTimeDuration of -86400..86400 s in steps chosen from a table of 6, yearMonthDuration from a table of 4, date/dateTime/time in '
+                      '3 years (indices chosen by the solver, concrete on each path): duration + value eq value + duration for every pairing '
+                      'XPath defines (op:add-*Duration-to-date/dateTime/time are commutative)',
+    funcs=[D + ':DayTimeDuration.__add__', D + ':YearMonthDuration.__add__', D + ':AbstractDateTime.__add__'])
+def duration_plus_value_commutes(pi: int, qi: int, yi: int) -> bool:
+    """
+    pre: 0 <= pi <= 5 and 0 <= qi <= 3 and 0 <= yi <= 2
+    post: _
+    """
+    p = DayTimeDuration(seconds=(-86400, -3661, 0, 1, 7200, 86400)[[k for k in range(6) if k == pi][0]])
+    q = YearMonthDuration(months=(-13, 0, 1, 25)[[k for k in range(4) if k == qi][0]])
+    y = (1999, 2000, 9000)[[k for k in range(3) if k == yi][0]]
+    v = {'p': p, 'q': q, 'd': DateTime(y, 2, 28, 23, 59, 59), 'x': Date(y, 2, 28), 't': Time(23, 59, 59)}
+    return L(T_CMP['comm_dt'].evaluate(XPathContext(item=1, variables=v))) == [True] * 5
+
+
+_H24_YEARS = ('0001', '1999', '2000', '9998', '9999', '10000', '10001', '12000', '-0002', '-0005', '-12000')
+_H24_NEXT = {'0001': '0002', '1999': '2000', '2000': '2001', '9998': '9999', '9999': '10000', '10000': '10001', '10001': '10002', '12000': '12001',
+             '-0002': '-0001', '-0005': '-0004', '-12000': '-11999'}
+_H24_ENDS = (('01-31', '02-01'), ('04-30', '05-01'), ('11-30', '12-01'), ('12-31', None), ('12-30', '12-31'), ('02-28', None))    # (BCE Februaries: see below)
+
+
+def _h24_want(ys, md, nxt):
+    if nxt is not None:
+        return ys + '-' + nxt
+    if md == '12-31':
+        return _H24_NEXT[ys] + '-01-01'
+    return ys + ('-02-29' if _is_leap(int(ys)) else '-03-01')
+
+
+@ob(budget=200, bound='xs:dateTime("Y-MM-DDT24:00:00") for Y from 11 lexical years {0001, 1999, 2000, 9998, 9999, 10000, 10001, 12000, -0002, -0005, -12000} '
+                      'and 6 ends of month / year (indices chosen by the solver, text concrete on each path): the value is 00:00:00 of the next day, in the '
+                      'next month or the next year where the month or the year ends (XSD 1.0 year numbering)',
+    funcs=[D + ':AbstractDateTime.__init__ (24:00:00 normalisation)', D + ':AbstractDateTime.fromstring'])
+def hour24_at_month_and_year_ends(yi: int, ei: int) -> bool:
+    """
+    pre: 0 <= yi <= 10 and 0 <= ei <= 5
+    post: _
+    """
+    ys = _H24_YEARS[[k for k in range(11) if k == yi][0]]
+    md, nxt = _H24_ENDS[[k for k in range(6) if k == ei][0]]
+    if md == '02-28' and ys.startswith('-'):
+        md, nxt = '03-31', '04-01'      # which BCE years are leap under XSD 1.0 numbering is not asserted here (leap_day_far_years covers XSD 1.1)
+    r = L(T_CMP['h24'].evaluate(XPathContext(item=1, variables={'s': ys + '-' + md + 'T24:00:00'})))
+    return r == [_h24_want(ys, md, nxt) + 'T00:00:00']
